@@ -226,6 +226,16 @@ func NewEnv(signed bool, opts ...validation.Option) *Env {
 	return NewEnvStore(Shared(), signed, opts...)
 }
 
+// NewEnvActivation is NewEnv with the permissionless activation epoch (from which signed envelopes are required) at
+// BaseEpoch + offset: the clock starts at BaseEpoch and can be moved across it.
+func NewEnvActivation(offset int, opts ...validation.Option) *Env {
+	e := NewEnvStore(Shared(), false, opts...)
+	e.NetCfg.PermissionlessActivationEpoch = phase0.Epoch(int(BaseEpoch) + offset)
+	all := append([]validation.Option{validation.WithNodeStorage(e.NS), validation.WithDutyStore(e.Duties)}, opts...)
+	e.MV = validation.NewMessageValidator(e.NetCfg, all...)
+	return e
+}
+
 // NewEnvStore is NewEnv over a given store (Shared or TopicStore).
 func NewEnvStore(s *Store, signed bool, opts ...validation.Option) *Env {
 	clock := fx.NewClock(time.Time{})
